@@ -41,7 +41,7 @@ fn run_scenario(out: &mut TraceOut, family: &str, seed: u64, idx: u64, heavy: bo
     out.begin(&format!("{}/{}/{}", family, seed, idx));
     files::SCN_IDX.with(|c| c.set(idx));
     files::ALLOW_FOREIGN.with(|c| {
-        c.set(matches!(family, "seeks" | "history" | "ranges" | "prefixes" | "seeks_v1" | "history_v1" | "iters_v1"))
+        c.set(matches!(family, "seeks" | "history" | "history_faulty" | "ranges" | "prefixes" | "seeks_v1" | "history_v1" | "iters_v1"))
     });
     match family {
         "roundtrip" => cursor::scn_roundtrip(out, &mut r, idx, heavy, 2),
@@ -49,6 +49,7 @@ fn run_scenario(out: &mut TraceOut, family: &str, seed: u64, idx: u64, heavy: bo
         "seeks" => cursor::scn_seeks(out, &mut r, idx, heavy, 2, if heavy { 400 } else { 60 }),
         "seeks_v1" => cursor::scn_seeks(out, &mut r, idx, heavy, 1, 60),
         "history" => cursor::scn_history(out, &mut r, idx, heavy, 2, if heavy { 1500 } else { 400 }),
+        "history_faulty" => cursor::scn_history_faulty(out, &mut r, idx, heavy, if heavy { 1200 } else { 400 }),
         "history_v1" => cursor::scn_history(out, &mut r, idx, heavy, 1, 300),
         "ranges" => iters::scn_iters(out, &mut r, idx, heavy, 2, true, false),
         "prefixes" => iters::scn_iters(out, &mut r, idx, heavy, 2, false, true),
